@@ -11,7 +11,7 @@ ID = "C03"
 LEVEL = "fault_enumeration"
 RULE = ("for authentic reference-built packets of chosen frame lengths: every single-bit flip at every bit position, every "
         "truncation length 0..n-1, all 255 substitutions of each start-marker / length-field byte, a catalogue of 16-bit length values (alone and with a corrupted payload byte), single-byte substitutions, random multi-byte corruptions, fed to _Packet.decode (and a sample "
-        "through LAN.send with the simulated device sending the corrupted packet, on V2 connections and tunnelled inside correctly tagged V3 encrypted responses, as the reply to the first transmission or to a retransmission after 1-2 lost ones, or arriving on its own after a genuine reply so that the next exchange finds it queued). An authentic packet followed in the same chunk by other bytes (random, a second packet with or without its header, validly padded cipher blocks) must give a protocol error or exactly the signed frame. The authentic packet itself is accepted first and again every three corruptions (a receiver that remembers what it verified must still reject altered copies). Outcome classes: ProtocolError (required), "
+        "through LAN.send with the simulated device sending the corrupted packet, on V2 connections and tunnelled inside correctly tagged V3 encrypted responses, as the reply to the first transmission or to a retransmission after 1-2 lost ones, or arriving on its own after a genuine reply so that the next exchange finds it queued). A sample of flips and truncations is repeated in a child interpreter started with -O. Wire cases also run with a connection lifetime that elapses while a slow corrupted reply is awaited. An authentic packet followed in the same chunk by other bytes (random, a second packet with or without its header, validly padded cipher blocks) must give a protocol error or exactly the signed frame. The authentic packet itself is accepted first and again every three corruptions (a receiver that remembers what it verified must still reject altered copies). Outcome classes: ProtocolError (required), "
         "frame returned / other exception (violation). A corruption the reference still accepts as authentic is skipped and counted. "
         "distinct = (frame length, fault kind, position, value); all are non-trivial (the packet differs from an authentic one)")
 ASSUMPTIONS = ["a corruption producing a valid keyed MD5 by chance is skipped (none observed)",
@@ -51,12 +51,16 @@ def generate(ctx, rng):
         # bytes that follow an authentic packet in the same chunk (they are not covered by its signature)
         yield ("tail", L), {**base, "fault": "tail", "mseed": rng.getrandbits(32)}
     n_wire = 300 if quick else 30000
+    # the same decoder in an interpreter started with -O (assert statements compiled out): a configuration some deployments use
+    yield ("optimized-interpreter",), {"frame": b"", "id": 1, "filler": {}, "fault": "optimized", "mseed": rng.getrandbits(32)}
     for j in range(n_wire):
         L = rng.choice(Q_LENGTHS)
         yield ("wire", j), {"frame": rng.randbytes(L), "id": rng.getrandbits(48), "filler": {}, "fault": "wire",
                             "wkind": rng.choice(["flip", "trunc", "subst", "multi", "len0"]), "mseed": rng.getrandbits(32),
                             "version": 2 if j % 2 else 3, "drop_first": [0, 0, 0, 1, 2][j % 5],
-                            "position": "late-extra" if j % 7 == 3 else "reply"}
+                            "position": "late-extra" if j % 7 == 3 else "reply",
+                            # configuration: a connection lifetime that elapses while the (slow, corrupted) reply is awaited
+                            "lifetime": [None, None, 1, 30][j % 4], "reply_delay": [0.0, 1.3][(j // 4) % 2]}
 
 
 _since_authentic = [0]
@@ -149,6 +153,8 @@ def run_case(ctx, case):
                 _judge(ctx, case, frame, pkt, bytes(c), ("length+payload", val))
     elif fault == "tail":
         _tails(ctx, case, frame, pkt)
+    elif fault == "optimized":
+        _optimized(ctx, case)
     elif fault == "multi":
         r = random.Random(case["mseed"])
         for i in range(case["n"]):
@@ -172,6 +178,63 @@ def run_case(ctx, case):
             _judge(ctx, case, frame, pkt, bytes(c), ("multi", case["mseed"], i))
     elif fault == "wire":
         _wire(ctx, case, frame, pkt)
+
+
+_OPT_SCRIPT = r"""
+import json, random, sys
+assert False or True
+from mv import harness              # imports msmart from $MSMART_VERIF_REPO, as every check does
+from mv.ref import v2
+from msmart.lan import ProtocolError, _Packet
+r = random.Random(int(sys.argv[1]))
+bad, n = [], 0
+for L in (0, 5, 16, 33, 104):
+    frame = r.randbytes(L)
+    pkt = v2.build(frame, r.getrandbits(48))
+    if bytes(_Packet.decode(pkt)) != frame:
+        bad.append(["authentic", L, "mis-decoded"])
+    muts = [("flip", pos, bit) for pos in range(len(pkt)) for bit in (0, 3, 7)] + [("trunc", k, 0) for k in range(len(pkt))]
+    for kind, a, b in muts:
+        c = bytearray(pkt)
+        if kind == "flip":
+            c[a] ^= 1 << b
+        else:
+            c = c[:a]
+        if v2.is_authentic(bytes(c)):
+            continue
+        n += 1
+        try:
+            got = _Packet.decode(bytes(c))
+            bad.append([kind, a, b, "frame-returned", bytes(got) == frame])
+        except ProtocolError:
+            pass
+        except Exception as e:
+            bad.append([kind, a, b, type(e).__name__])
+print(json.dumps({"n": n, "bad": bad[:20], "nbad": len(bad), "optimize": sys.flags.optimize}))
+"""
+
+
+def _optimized(ctx, case):
+    """The decoder's guards must not depend on `assert`: the same corruptions in a child interpreter started with -O."""
+    import json
+    import os
+    import subprocess
+    import sys
+    env = {**os.environ, "PYTHONPATH": H.VERIF, "MSMART_VERIF_REPO": H.REPO}
+    r = subprocess.run([sys.executable, "-O", "-c", _OPT_SCRIPT, str(case["mseed"])], capture_output=True, text=True, timeout=300, env=env, cwd=H.VERIF)
+    try:
+        res = json.loads(r.stdout.strip().splitlines()[-1])
+    except Exception:  # noqa: BLE001
+        ctx.inconclusive_because(f"-O child interpreter did not report (rc={r.returncode}): {(r.stderr or r.stdout)[-200:]}")
+        return
+    if res.get("optimize", 0) < 1:
+        ctx.inconclusive_because("-O child interpreter did not run optimised")
+        return
+    ctx.count(("optimized", case["mseed"]), kind="optimized-interpreter-run")
+    ctx.bump("corruptions-judged-under-python-O", res["n"])
+    for b in res["bad"][:3]:
+        ctx.violation("guard-depends-on-assert" if b[-1] in (True, False) or b[3:4] == ["frame-returned"] else "other-exception",
+                      f"under python -O a corrupted packet ({b[0]} {b[1]} {b[2]}) gave {b[3:]} instead of a protocol error ({res['nbad']} of {res['n']})", case)
 
 
 def _tails(ctx, case, frame, pkt):
@@ -232,12 +295,13 @@ def _wire(ctx, case, frame, pkt):
     version = case.get("version", 2)
     token, aes_key = bytes(range(64)), bytes(range(32))
     dev = SimDevice(net, version=version, token=token, key=aes_key, device_id=case["id"])
+    rd = case.get("reply_delay", 0.0)
     if version == 3:
         # the corrupted V2 packet travels inside a correctly tagged V3 encrypted response
         from ..ref import v3
-        dev.on_exchange = lambda conn, req, packets, meta: [(0, v3.build_encrypted(conn.skey, corrupted, 7, v3.T_ENC_RESP))]
+        dev.on_exchange = lambda conn, req, packets, meta: [(rd, v3.build_encrypted(conn.skey, corrupted, 7, v3.T_ENC_RESP))]
     else:
-        dev.on_exchange = lambda conn, req, packets, meta: [(0, corrupted)]
+        dev.on_exchange = lambda conn, req, packets, meta: [(rd, corrupted)]
 
     first = {"n": 0, "silent": 0}
     late = case.get("position") == "late-extra"
@@ -266,6 +330,10 @@ def _wire(ctx, case, frame, pkt):
 
     async def go(loop):
         lan = LAN(dev.host, dev.port, case["id"])
+        if case.get("lifetime") and not (late and case["lifetime"] < 5):
+            # (in the late-extra position a lifetime shorter than the pause would legitimately retire the connection - and the
+            # corrupted packet with it - before the next exchange looks at it)
+            lan.max_connection_lifetime = case["lifetime"]
         if version == 3:
             await lan.authenticate(token, aes_key)
         if case["mseed"] % 2 == 0:
@@ -280,7 +348,7 @@ def _wire(ctx, case, frame, pkt):
             await asyncio.sleep(1.0)
         return await lan.send(b"\xaa\x0b\xac" + bytes(8))
 
-    key = (len(frame), ("wire", k, case["mseed"], version, case.get("drop_first", 0), case.get("position")))
+    key = (len(frame), ("wire", k, case["mseed"], version, case.get("drop_first", 0), case.get("position"), case.get("lifetime"), rd))
     try:
         got, loop = H.run_virtual(go, net)
     except ProtocolError:
